@@ -177,3 +177,45 @@ func cornerFirst(r *core.Rng, P ref.ID, dh, dv int64) []ref.ID {
 	}
 	return append(out, P)
 }
+
+// ---- hostile shapes added after the second wave of seeded changes ----
+
+// longLen draws a list length around the sizes at which implementations switch to batching or worker pools.
+func longLen(r *core.Rng) int {
+	base := []int{4095, 4096, 4097, 8191, 8192, 8193, 12288, 16384, 1024, 1025}[r.Intn(10)]
+	if r.P(0.3) {
+		return 8192 + r.Intn(4100)
+	}
+	return base
+}
+
+// decimalEdge draws a magnitude at a decimal digit-length boundary: 10^k + d (d in -2..2), i.e. also 99..9 and 99..8.
+func decimalEdge(r *core.Rng, kmin, kmax int64) int64 {
+	k := r.Range(kmin, kmax)
+	v := int64(1)
+	for i := int64(0); i < k; i++ {
+		v *= 10
+	}
+	return v + r.Range(-2, 2)
+}
+
+// flipHigh flips one high bit of an index of zoom h (the top bits, bit 32/31 and bit 24): siblings that truncated
+// or packed keys confuse with the original.
+func flipHigh(r *core.Rng, x, h int64) int64 {
+	if h == 0 {
+		return x
+	}
+	cands := []int64{h - 1, h - 2, 32, 31, 30, 24, 16}
+	k := cands[r.Intn(len(cands))]
+	if k < 0 || k >= h {
+		k = h - 1
+	}
+	return x ^ (int64(1) << uint(k))
+}
+
+// malformedAfter appends a malformed ID to a valid list (the failing call leaves through the error path after
+// having processed the valid prefix): used as a "poison" call before a judged call in the same process.
+func malformedAfter(r *core.Rng, valid []string) []string {
+	bad := []string{"1/2/3", "", "5/b/0/0/0", "7/1/1/7", "9/0/0/9/1.5"}[r.Intn(5)]
+	return append(append([]string{}, valid...), bad)
+}
